@@ -42,3 +42,15 @@ Example C15_example :
   let spa_bad := mkNS 1 SPA false None (Some 3) (Some 2) (Some 2) (Some 1) (Some 2) None None None (Some 1) (Some 2) (Some 2) None in
   documented_ok sm = true /\ documented_ok spa_bad = false /\ decide spa_bad = Reject.
 Proof. vm_compute. repeat split; reflexivity. Qed.
+
+(* the composed generator on a concrete documented HR argument set and two recorded draws: two files, 0.txt and 1.txt *)
+Example C15_generates_example :
+  let ns := mkNS 2 HR true None (Some 3) (Some 2) None (Some 1) (Some 2) None None None None (Some 3) None None in
+  let d := mkDraws [[1;2];[2];[2;1]] [[false;false];[false];[true;false]] [[3;1];[2;1;3]]
+                   [[false;false];[false;true;false]] in
+  documented_ok ns = true /\
+  match generator_run ns "0.0" "0.0" "1.0" "0.0" [d; d] with
+  | GFiles fs => map fst fs = ["0.txt"%string; "1.txt"%string]
+  | _ => False
+  end.
+Proof. vm_compute. split; reflexivity. Qed.
